@@ -5,7 +5,11 @@ cd "$(dirname "$0")/.."
 patch=$(readlink -f "$1"); shift
 checks=${@:-$(/venv/bin/python -c "import json; print(' '.join(x['property_id'] for x in json.load(open('MANIFEST.json'))['checks']))")}
 W=/tmp/benign-wt-$$; rm -rf $W; git -C /repo worktree add --detach $W HEAD >/dev/null 2>&1
-if ! git -C $W apply "$patch"; then echo "PATCH DOES NOT APPLY"; git -C /repo worktree remove --force $W; exit 2; fi
+if ! git -C $W apply "$patch" 2>/dev/null; then
+  if ! (cd $W && patch -p1 --fuzz=3 --no-backup-if-mismatch < "$patch" >/dev/null 2>&1); then
+    echo "PATCH DOES NOT APPLY"; git -C /repo worktree remove --force $W; exit 2; fi
+  find $W -name '*.orig' -delete; find $W -name '*.rej' -delete; echo "(applied with fuzz)"
+fi
 t=$(cd $W && PYTHONPATH=$W /venv/bin/python -m pytest -q -p no:cacheprovider --timeout=900 test/ 2>&1 | tail -1)
 echo "tests: $t"
 bad=0
